@@ -132,6 +132,10 @@ std::string encode_manifest(const Manifest& manifest) {
         throw std::length_error("manifest metadata entry count exceeds limit");
     }
 
+    if (manifest.shards.size() > std::numeric_limits<std::uint8_t>::max()) {
+        throw std::length_error("manifest shard count exceeds limit");
+    }
+
     std::size_t metadata_bytes = 1;  // entry count byte
     for (const auto& entry : manifest.metadata) {
         const auto& key = entry.first;
